@@ -36,13 +36,16 @@ type c20Case struct {
 	RegisterLate         bool         `json:"registerLate"` // registrations added after the tables exist
 	Items                []model.Item `json:"items"`
 	Req                  model.Op     `json:"req"`
+	// Pre: with RegisterLate, a request executed before the registrations are
+	// made (dispatch must not depend on what the table evaluated earlier)
+	Pre *model.Op `json:"pre,omitempty"`
 }
 
 var c20Texts = map[string][]string{
 	"key":         {"pk = :h", ":h = pk", " pk = :h ", "pk =  :h", "pk = :h AND sk > :s", "sk > :s AND pk = :h"},
-	"filter":      {"a = :v", ":v = a", "v = :a", "a  = :v", " a = :v", "a = :v AND b = :w", "b = :w AND a = :v", "a <> :v", "attribute_exists(a)"},
-	"conditional": {"a = :v", ":v = a", "v = :a", "a  = :v", " a = :v", "a = :v AND b = :w", "b = :w AND a = :v", "attribute_exists(a)", "attribute_not_exists(pk)"},
-	"update":      {"SET a = :v", "SET  a = :v", " SET a = :v ", "SET a = :v, b = :w", "SET a = :w, b = :v", "SET b = :w, a = :v", "REMOVE a", "ADD n :one"},
+	"filter":      {"a = :v", "A = :v", ":v = a", "v = :a", "a  = :v", " a = :v", "a = :v AND b = :w", "b = :w AND a = :v", "a <> :v", "attribute_exists(a)", "attribute_exists(A)"},
+	"conditional": {"a = :v", "A = :v", ":v = a", "v = :a", "a  = :v", " a = :v", "a = :v AND b = :w", "b = :w AND a = :v", "attribute_exists(a)", "attribute_not_exists(pk)", "attribute_not_exists(PK)"},
+	"update":      {"SET a = :v", "SET A = :v", "SET  a = :v", " SET a = :v ", "SET a = :v, b = :w", "SET a = :w, b = :v", "SET b = :w, a = :v", "REMOVE a", "REMOVE A", "ADD n :one"},
 }
 
 var c20AllValues = map[string]model.AV{":h": model.Str("p1"), ":s": model.Str("a"), ":v": model.Str("x"), ":w": model.Str("y"), ":a": model.Str("x"), ":one": model.Num("1")}
@@ -182,6 +185,18 @@ func runC20(c c20Case, info *c20Info) *failure {
 			activate()
 		}
 		if c.RegisterLate {
+			if c.Pre != nil {
+				if r := d.Apply(*c.Pre); r.Err == model.ErrRuntimePanic {
+					return newFail("runtime panic", "%s %s: %s", which, c.Pre.Kind, r.ErrText)
+				}
+				// restore the items the earlier request may have changed
+				for _, tn := range []string{"tblA", "tblB"} {
+					d.Apply(model.Op{Kind: "ClearTable", Table: tn})
+					for _, it := range c.Items {
+						d.Apply(model.Op{Kind: "Put", Table: tn, Item: it})
+					}
+				}
+			}
 			register(native, c.Regs, l)
 		}
 		l.fired = nil
@@ -370,7 +385,7 @@ func init() {
 	}
 }
 
-const ruleC20 = "rapid: a set of registrations - subset of {tblA, tblB} x {key, filter, conditional, update} x texts from pools built to collide under character sorting (anagram pairs such as 'a = :v' / ':v = a' / 'v = :a', 'SET a = :v, b = :w' / 'SET a = :w, b = :v', whitespace variants, prefixes), each with an instrumented callback that records its id and returns a generated verdict (matchers) or writes a marker attribute (updaters); the native interpreter on or off, activated before or after table creation, registrations made on the client's own interpreter or installed with SetInterpreter before or after table creation, before or after the tables exist; then one request (Scan with filter, Query with key condition and optional filter, Put / Delete / Update with condition, Update with update text) on either table, on both SDK clients. Oracle: for each expression the request evaluates, a registration for exactly (table, kind, trimmed text) -> that callback and only it fires and its verdict / mutation decides the outcome (texts equal after collapsing surrounding and repeated whitespace are one registration, the latest wins); no such registration -> no callback fires, matches fall back to the built-in interpreter (reference model), updates fail as unsupported and change nothing. Non-trivial = request whose text is an anagram (not whitespace-equal) of a registered text of the same slot, or equal to a text registered for another table or kind; distinct = hash of the case."
+const ruleC20 = "rapid: a set of registrations - subset of {tblA, tblB} x {key, filter, conditional, update} x texts from pools built to collide under character sorting (anagram pairs such as 'a = :v' / ':v = a' / 'v = :a', 'SET a = :v, b = :w' / 'SET a = :w, b = :v', whitespace variants, letter-case variants 'a' / 'A', prefixes), each with an instrumented callback that records its id and returns a generated verdict (matchers) or writes a marker attribute (updaters); the native interpreter on or off, activated before or after table creation, registrations made on the client's own interpreter or installed with SetInterpreter before or after table creation, before or after the tables exist, optionally after the same request has already been executed once unregistered; then one request (Scan with filter, Query with key condition and optional filter, Put / Delete / Update with condition, Update with update text) on either table, on both SDK clients. Oracle: for each expression the request evaluates, a registration for exactly (table, kind, trimmed text) -> that callback and only it fires and its verdict / mutation decides the outcome (texts equal after collapsing surrounding and repeated whitespace are one registration, the latest wins); no such registration -> no callback fires, matches fall back to the built-in interpreter (reference model), updates fail as unsupported and change nothing. Non-trivial = request whose text is an anagram (not whitespace-equal) of a registered text of the same slot, or equal to a text registered for another table or kind; distinct = hash of the case."
 
 // TestC20 decides property C20.
 func TestC20(t *testing.T) {
@@ -434,6 +449,10 @@ func TestC20(t *testing.T) {
 			c.Req = model.Op{Kind: "Update", Table: table, Key: key, Update: pickText("update", "update"), Cond: pickText("conditional", "cond")}
 		}
 		c.Req.Values = c20ValuesFor(c.Req.KeyCond, c.Req.Filter, c.Req.Cond, c.Req.Update)
+		if c.RegisterLate && rapid.Bool().Draw(rt, "requestBeforeRegistration") {
+			pre := c.Req
+			c.Pre = &pre
+		}
 		pending("C20", "c20", c)
 		info := &c20Info{}
 		f := runC20(c, info)
